@@ -176,13 +176,14 @@ def _mkcase(ctx, ci):
     C.dir = ctx.tmpdir('c%d' % ci)
     C.src = os.path.join(C.dir, 'src')
     os.makedirs(C.src)
-    lib_slice = rng.random() < (0.25 if ctx.quick() else 0.3)
+    # quick tier: exactly one slice of /repo/lib (3 small files; they take minutes under TSan on a busy machine)
+    lib_slice = (ci == 0) if ctx.quick() else rng.random() < 0.3
     opts = ['--executor=thread']
     C.jobs = rng.choice([2, 4, 8, 16, 32])
     opts.append('-j%d' % C.jobs)
     if lib_slice:
         C.kind = 'repo-lib-slice'
-        C.sources = _lib_files(rng, rng.randint(3, 4) if ctx.quick() else rng.randint(4, 8))
+        C.sources = _lib_files(rng, 3 if ctx.quick() else rng.randint(4, 8))
         opts += ['-I/repo/lib', '--inline-suppr', '--enable=all', '--inconclusive', '-D__GNUC__', '--max-configs=2']
         C.digest = sha1(*C.sources)
         base_findings = []
